@@ -411,6 +411,50 @@ pub fn gen_scalar_forest(r: &mut Rng, min_comp: usize, max_comp: usize, pool: Ph
     DDesc { verts, edges, inputs: vec![], outputs: vec![], scalar: gen_scalar(r) }
 }
 
+/// Hubs: one or two spiders of degree 129-220 (above the 64/128 marks where adjacency
+/// representations tend to switch strategy) with leaves of mixed phase, colour and edge type;
+/// the hubs carry non-Clifford phases most of the time, so that the simplifiers do not turn
+/// the star into a clique that nothing can evaluate.
+pub fn gen_hub(r: &mut Rng, min_leaves: usize, max_leaves: usize, pool: PhasePool, graph_like: bool) -> DDesc {
+    let nl = min_leaves + r.below(max_leaves - min_leaves + 1);
+    let nh = 1 + r.below(2);
+    let mut verts = vec![];
+    let mut edges: Vec<(usize, usize, EK)> = vec![];
+    for _ in 0..nh {
+        let ph = if r.chance(0.85) { *r.pick(&[(1i64, 4i64), (3, 4), (-1, 4), (-3, 4)]) } else { gen_phase(r, pool) };
+        verts.push(DV { kind: VK::Z, ph, vars: vec![] });
+    }
+    if nh == 2 && r.chance(0.5) {
+        edges.push((0, 1, EK::H));
+    }
+    let ek = |r: &mut Rng| if graph_like || r.chance(0.5) { EK::H } else { EK::N };
+    for i in 0..nl {
+        let v = verts.len();
+        let kind = if graph_like || r.chance(0.7) { VK::Z } else { VK::X };
+        verts.push(DV { kind, ph: gen_phase(r, pool), vars: vec![] });
+        let h = if nh == 2 && i % 3 == 2 { 1 } else { 0 };
+        let k = ek(r);
+        edges.push((h, v, k));
+        if nh == 2 && r.chance(0.05) {
+            let k = ek(r);
+            edges.push((1 - h, v, k));
+        }
+    }
+    let nb = r.below(4);
+    let mut bnds = vec![];
+    for _ in 0..nb {
+        let b = verts.len();
+        verts.push(DV { kind: VK::B, ph: (0, 1), vars: vec![] });
+        let s = if r.chance(0.4) { r.below(nh) } else { nh + r.below(nl) };
+        edges.push((s, b, if r.chance(0.3) { EK::H } else { EK::N }));
+        bnds.push(b);
+    }
+    let cut = if bnds.is_empty() { 0 } else { r.below(bnds.len() + 1) };
+    let inputs = bnds[..cut].to_vec();
+    let outputs = bnds[cut..].to_vec();
+    DDesc { verts, edges, inputs, outputs, scalar: gen_scalar(r) }
+}
+
 /// Matcher-edge shapes around phase gadgets: 2-3 hubs over a small core, where a hub may have
 /// no leaf, one leaf or several leaves, a leaf may hang on a plain edge, hubs may carry a
 /// phase, be adjacent, be X spiders, or have neighbourhoods that differ in one vertex only.
